@@ -44,7 +44,8 @@ for d in sorted(os.listdir(S)):
             break
     meta = {
         "property": d.split("_")[0],
-        "round": 1 if int(re.sub(r"\D", "", d.split("_m")[1])) <= {"C09": 3, "C19": 3}.get(d.split("_")[0], 2) else 2,
+        "round": 3 if d in ("C13_m5", "C13_m6", "C15_m3", "C15_m4", "C18_m3", "C18_m4", "C11_m5") else
+                 (1 if int(re.sub(r"\D", "", d.split("_m")[1])) <= {"C09": 3, "C19": 3}.get(d.split("_")[0], 2) else 2),
         "what_it_breaks": am.get("what_it_breaks", ""),
         "needs_to_manifest": am.get("needs_to_manifest", ""),
         "files_changed": am.get("files_changed", []),
@@ -63,6 +64,10 @@ for d in sorted(os.listdir(S)):
     json.dump(meta, open(os.path.join(p, "meta.json"), "w"), indent=1)
     rows.append((d, meta))
 NOTES = {
+    "C18_m3": "a cut-off of the search once 64 variables have been tested: the search contract is proved over at most 5 variables (bounded width), where the cut-off "
+              "cannot trigger, and the native networks have at most 7 - outside the stated bound of the check.",
+    "C13_m6": "the annotator's own id index (AnnotatorImpl::listIdsAndItems) skips the unit children of imported units: the index build is abstracted to the single effect "
+              "'list rebuilt' in the effect slices (data dropped) and is not under a data contract; only the printer-side collection (listIds/listComponentIds) is.",
     "C13_m1": "neutralised by fix f2fd4e9 (written against the tree before it): with the repair in place its demonstration passes, i.e. the property holds with this change applied. "
               "The check answers exit 2 (the exactness flag over-approximates and the native fuzz reproduces nothing) - not a violation, not a clean pass.",
 }
